@@ -1,0 +1,31 @@
+//go:build verif
+
+package lnd
+
+import (
+	"context"
+
+	"github.com/btcsuite/btcd/chaincfg"
+	"github.com/lightningnetwork/lnd/lnrpc"
+	"github.com/lightningnetwork/lnd/lnrpc/chainrpc"
+)
+
+// This file is compiled only with the "verif" build tag.
+
+// VerifNewTxWatcher is NewTxWatcher for callers that bring the two rpc client
+// interfaces themselves instead of a grpc connection, so that an external
+// harness can run the watcher against fakes of lnd's chain notifier.
+func VerifNewTxWatcher(ctx context.Context, ln lnrpc.LightningClient, cn chainrpc.ChainNotifierClient, network *chaincfg.Params, targetConfirmation, targetCsv uint32) *TxWatcher {
+	ctx, cancel := context.WithCancel(ctx)
+	return &TxWatcher{
+		ctx:                  ctx,
+		cancel:               cancel,
+		lnrpcClient:          ln,
+		chainrpcClient:       cn,
+		network:              network,
+		targetConfs:          targetConfirmation,
+		targetCsv:            targetCsv,
+		confirmationWatchers: make(map[string]bool),
+		waitForCsvWatchers:   make(map[string]bool),
+	}
+}
